@@ -41,6 +41,10 @@ CLAIMED = {
    "Valid geometries: every structural shape S(d,w) x 4 coordinate types x finite float classes (polygons as cell squares under 8 float frames): MarshalJSON output is parsed by encoding/json, walked against the RFC 7946 schema, its numbers compared bit for bit with the XY(Z) ordinates, and the decode compared with a loss model (M dropped, empty Points omitted from MultiPoints, Z dropped only without positions); decoding into each of the 7 concrete types succeeds iff the type matches. Documents: every assignment of position lengths 0..5 to the positions of 6 type templates, member order, collection siblings deciding the document-wide dimension, 10 structural deviations, nulls. Features: ids x properties x foreign members x geometries and FeatureCollections of 0..2, malformed variants rejected.",
    "Trust: encoding/json, refcodec/node.go, the loss model geojsonExpect in checks/c06.go. Foreign members named like reserved members (type, geometry, id, properties) are not foreign members and are excluded; non-finite ordinates are outside JSON.",
    "bounded-exhaustive enumeration of shapes and of grammar-derived documents on the real code against a reference loss model", "4/C06"),
+ "C07": ("model_checking",
+   "Valid geometries: every structural shape S(d,w) x 4 coordinate types x 9 ordinate frames (k/10^q on grids, on rounding ties, in between, negative, large) x XY precisions (incl. out-of-range -9 and 8) x Z/M precision pairs (incl. out-of-range) x every subset of {size, bbox, close rings} x ID lists (exact, one too many, one too few, on types without members): UnmarshalTWKB(MarshalTWKB(...)) compared with the original under exact rational rounding (each ordinate must be the float nearest to m/10^p with |m - x*10^p| <= 1/2), tolerated losses predicted exactly; size / bbox / ID headers read by an independent varint-level reader and compared with the decoded geometry and with UnmarshalTWKBSize / Envelope / IDList.",
+   "Trust: refcodec/twkb.go (independent reader), math/big rationals. Cases where rounding makes the geometry invalid are outside 'admissible precisions' and only counted; |x*10^p| >= 2^50 is outside the domain.",
+   "bounded-exhaustive enumeration of shapes x configurations on the real code against exact rational rounding and an independent reference reader", "4/C07"),
 }
 
 PENDING = {}
